@@ -701,7 +701,9 @@ class SAMIParser(HTMLParser):
             self.sami += f"</{closing_tag}>"
 
     def handle_entityref(self, name):
-        if name in ['gt', 'lt']:
+        # the output is parsed once more (by BeautifulSoup), so the markup
+        # characters must stay escaped or they would be decoded twice
+        if name in ['gt', 'lt', 'amp']:
             self.sami += f'&{name};'
         else:
             try:
@@ -712,10 +714,12 @@ class SAMIParser(HTMLParser):
         self.last_element = ''
 
     def handle_charref(self, name):
-        if name[0] == 'x':
-            self.sami += chr(int(name[1:], 16))
+        if name[0] in 'xX':
+            char = chr(int(name[1:], 16))
         else:
-            self.sami += chr(int(name))
+            char = chr(int(name))
+        # a reference to a markup character stays a reference, see above
+        self.sami += escape(char)
 
     # override the parser's handling of data
     def handle_data(self, data):
